@@ -34,7 +34,7 @@ ASSUMPTIONS = [
     'POST /media/inspect needs Flask\'s optional async support (asgiref), absent from this environment: its RuntimeError is not judged; the outbound-fetch url field is never used (no network)',
     'shims + werkzeug test client as HTTP boundary',
 ]
-REQUIRED_COUNTERS = ['a.requests', 'a.options_covered', 'b.parser_inputs', 'b.http_uploads', 'c.sequences',
+REQUIRED_COUNTERS = ['a.requests', 'a.path_requests', 'a.options_covered', 'b.parser_inputs', 'b.http_uploads', 'c.sequences',
                      'c.synthetic_seen', 'reach.check_for_synthetic_http_error', 'reach.calculate_injected_error_segments',
                      'reach.load']
 
@@ -45,7 +45,14 @@ VALUES = [
     ('brackets', '[1]'), ('braces', '{0}{cfgs}'), ('iso', '2024-01-01T00:00:00Z'), ('isobad', '2024-13-45T99:99:99Z'),
     ('err404', '404=1'), ('errhalf', '404='), ('eq', '='), ('hms', '12:00:00Z'), ('dash', 'all-'), ('dashloc', 'playready-bogus'),
     ('comma', ','), ('pct', '%'), ('space', ' '), ('long', 'x' * 3000),
+    # added after a fresh reader of the code found 5xx answers outside the first catalogue
+    ('duration', 'PT10S'), ('negduration', '-PT5S'), ('u32max', '4294967295'), ('i32over', '2147483648'),
+    ('errtime', '404=00:00:00Z'), ('erriso', '404=2024-06-06T12:30:00Z'), ('errdur', '404=PT10S'),
+    ('symbolic', 'epoch'), ('today', 'today'), ('unidigits', '١٢٣'), ('plus', '+5'), ('exp', '1e3'),
 ]
+# values for the parameters in the path itself (segment number / time, patch publish time, names)
+PATH_VALUES = ['0', '1', '-1', '99999999999999', '99999999999999999999999', '4294967296', 'abc', '1.5', '%00',
+               '١٢٣', '+1', '0x10', '1e3', '', ' ', 'init', '..', 'a' * 300]
 NOW = datetime.datetime(2024, 6, 6, 12, 30, 7, 250000, tzinfo=UTC)
 START = '2024-06-06T00:00:00Z'
 
@@ -143,6 +150,9 @@ class Fuzz:
         for m in ('manifest_b.mpd', 'manifest_h.mpd', 'manifest_i.mpd', 'manifest_ef.mpd'):
             t.append((f'manifest:{m}:live:bbb', f'/dash/live/bbb/{m}'))
             t.append((f'manifest:{m}:vod:bbb', f'/dash/vod/bbb/{m}'))
+        for m in ('hand_made.mpd', 'manifest_e.mpd'):
+            for st in ('epoch', 'today', 'now'):
+                t.append((f'manifest:{m}:live:bbb:start-{st}', f'/dash/live/bbb/{m}?start={st}'))
         t += [
             ('patch', '/patch/bbb/hand_made/1717675200'), ('patch:tears', '/patch/tears/manifest_a/1717675200'),
             ('mps-manifest:live', '/mps/live/c16mps/hand_made.mpd'), ('mps-manifest:vod', '/mps/vod/c16mps/hand_made.mpd'),
@@ -228,6 +238,51 @@ class Fuzz:
             if done >= limit // ctx.nshards or (done % 50 == 0 and ctx.out_of_time()):
                 break
         res.count('a.options_covered', len(covered))
+        self.part_a_paths()
+
+    def part_a_paths(self) -> None:
+        """(A2) boundary and type-confused values in the path parameters of every media, manifest and patch route"""
+        from urllib.parse import quote
+        ctx, res, rng = self.ctx, self.res, self.ctx.rng
+        ppk = self.mps['periods'][0]['pk']
+        templates = [
+            ('path:media:number', '/dash/{mode}/bbb/bbb_v7/{v}.m4v', ('live', 'vod')),
+            ('path:media:time', '/dash/{mode}/bbb/bbb_a1/time/{v}.m4a', ('live', 'vod')),
+            ('path:media:enc', '/dash/{mode}/bbb/bbb_v7_enc/{v}.m4v?drm=all', ('live', 'vod')),
+            ('path:media:rep', '/dash/{mode}/bbb/{v}/3.m4v', ('live', 'vod')),
+            ('path:media:ext', '/dash/{mode}/bbb/bbb_v7/3.{v}', ('live', 'vod')),
+            ('path:media:stream', '/dash/{mode}/{v}/bbb_v7/3.m4v', ('live', 'vod')),
+            ('path:init', '/dash/{mode}/bbb/{v}/init.m4v', ('live', 'vod')),
+            ('path:odvod', '/dash/odvod/bbb/{v}.m4a', ('odvod',)),
+            ('path:manifest', '/dash/{mode}/bbb/{v}', ('live', 'vod', 'odvod')),
+            ('path:manifest:mode', '/dash/{v}/bbb/hand_made.mpd', ('x',)),
+            ('path:patch:time', '/patch/bbb/hand_made/{v}', ('x',)),
+            ('path:patch:time:q', '/patch/bbb/hand_made/{v}?patch=1', ('x',)),
+            ('path:patch:name', '/patch/bbb/{v}/1717675200', ('x',)),
+            ('path:patch:name.mpd', '/patch/bbb/hand_made.mpd/{v}?patch=1', ('x',)),
+            ('path:mps:number', '/mps/{mode}/c16mps/%d/bbb_v7/{v}.m4v' % ppk, ('live', 'vod')),
+            ('path:mps:time', '/mps/{mode}/c16mps/%d/bbb_a1/time/{v}.m4a' % ppk, ('live', 'vod')),
+            ('path:mps:period', '/mps/{mode}/c16mps/{v}/bbb_v7/2.m4v', ('live', 'vod')),
+            ('path:mps:name', '/mps/{mode}/{v}/hand_made.mpd', ('live', 'vod')),
+            ('path:mps:manifest', '/mps/{mode}/c16mps/{v}', ('live', 'vod')),
+            ('path:time', '/time/{v}', ('x',)),
+            ('path:play', '/play/{mode}/bbb/{v}/index.html', ('live', 'vod')),
+            ('path:stream', '/stream/{v}?ajax=1', ('x',)),
+            ('path:key', '/key/{v}', ('x',)),
+        ]
+        plan = [(label, tpl, mode, v) for label, tpl, modes in templates for mode in modes for v in PATH_VALUES]
+        rng.shuffle(plan)
+        for idx, (label, tpl, mode, v) in enumerate(plan):
+            if idx % ctx.nshards != ctx.shard:
+                continue
+            url = tpl.replace('{mode}', mode).replace('{v}', v if '%' in v else quote(v, safe='+'))
+            if mode == 'live' and 'start=' not in url and 'media' in label:
+                url += ('&' if '?' in url else '?') + f'start={START}'
+            rp = {'a': {'url': url, 'now': NOW.isoformat()}}
+            r = self.request('GET', url, 'a', label, rp)
+            res.count('a.path_requests')
+            status = 'none' if r is None else ('5xx' if r.status_code >= 500 else f'{r.status_code // 100}xx')
+            res.case(f'A2|{label}|{PATH_VALUES.index(v)}|{status}')
 
     # ------------------------------------------------------------------ (B)
     def mutations(self, data: bytes, rng, max_n: int) -> list[tuple[str, bytes]]:
@@ -248,6 +303,12 @@ class Fuzz:
                 m = bytearray(data)
                 m[b.start:b.start + 4] = struct.pack('>I', val & 0xFFFFFFFF)
                 out.append((f'{cls}@{b.name()}', bytes(m)))
+            for big in (2**33, 2**40, 2**63, b.size + 8):
+                # the 64-bit size form: size field 1, the real size in the following eight bytes
+                m = bytearray(data)
+                m[b.start:b.start + 4] = struct.pack('>I', 1)
+                m[b.start + 8:b.start + 8] = struct.pack('>Q', big)
+                out.append((f'largesize@{b.name()}', bytes(m)))
             m = bytearray(data)
             m[b.start + 4:b.start + 8] = rng.choice([b'zzzz', b'moov', b'trun', b'\0\0\0\0', b'uuid', b'senc', b'avcC'])
             out.append((f'type@{b.name()}', bytes(m)))
